@@ -25,8 +25,38 @@ def pow2_term(n):
     return _pow2(n)
 
 
+def _width(P, x, limit=32):
+    """smallest w in 8, 16, 24, 32 with 0 <= x < 2**w entailed by the path, or None"""
+    if not P.entails(x >= 0):
+        return None
+    for w in range(8, limit + 1, 8):
+        if P.entails(x < 2 ** w):
+            return w
+    return None
+
+
 def bitor(a, b):
-    raise E.Unsupported('symbolic | symbolic')
+    """a | b for symbolic integers: a + b when the operands are provably bit-disjoint (x << k | y with y < 2**k),
+    otherwise bit by bit when both are provably non-negative and below 2**32"""
+    P = E.cur()
+    for x, y in ((a, b), (b, a)):
+        w = _width(P, y)
+        if w is not None and P.entails(x % (2 ** w) == 0):
+            return x + y
+    wa, wb = _width(P, a), _width(P, b)
+    if wa is None or wb is None:
+        raise E.Unsupported('symbolic | symbolic')
+    bit = lambda x, k: (x / (2 ** k)) % 2
+    return z3.Sum([z3.If(z3.Or(bit(a, k) == 1, bit(b, k) == 1), 2 ** k, 0) for k in range(max(wa, wb))])
+
+
+def bitand(a, b):
+    P = E.cur()
+    wa, wb = _width(P, a), _width(P, b)
+    if wa is None or wb is None:
+        raise E.Unsupported('symbolic & symbolic')
+    bit = lambda x, k: (x / (2 ** k)) % 2
+    return z3.Sum([z3.If(z3.And(bit(a, k) == 1, bit(b, k) == 1), 2 ** k, 0) for k in range(min(wa, wb))])
 
 
 def seq_equal_pred(l, r):
